@@ -586,6 +586,10 @@ def run(ctx, report):
     c09._own_run(ctx, Only(report, {"BUILD": "SIZE-BUILD"}))
     # the shadow rule above rests on the precedence "secp256k1 entry first, then ed25519" (C01.R3)
     c01.pubkey_rule(ctx, Only(report, {"PUBKEY": "PUBKEY"}))
+    # "accepted again by the decoder": keys the library itself stores (any byte string, the empty one included) pass the
+    # decoder's ordering test
+    from rules import c02
+    c02._own_run(ctx, Only(report, {"KEYS": "KEYS"}))
     c10._own_run(ctx, Only(report, {"UNCOMP": "UNCOMP", "FROM": "FROM", "DIGEST": "DIGEST"}))
 
 
